@@ -17,13 +17,22 @@ for d in $V/harmless/*.diff; do
   python3 $V/tools/extract.py /repo/src /var/tmp/hw/$name.base.lean > /dev/null 2>&1
   cp /var/tmp/hw/$name.base.lean /var/tmp/hw/$name.new.lean
   out=$(python3 $V/tools/extract.py $W/src /var/tmp/hw/$name.new.lean 2>&1); erc=$?
-  if [ $erc -ne 0 ] || ! cmp -s /var/tmp/hw/$name.base.lean /var/tmp/hw/$name.new.lean; then
+  # the inventory of `unsafe` may shrink under a harmless rewrite (the obligation is "within the inventory"): compare it separately
+  inv_ok=$(python3 - /var/tmp/hw/$name.new.lean <<'PY'
+import re, sys
+allowed = {"desync.rs": 10, "scheduler/desync_scheduler.rs": 2, "scheduler/unsafe_job.rs": 4}
+line = [l for l in open(sys.argv[1]) if l.startswith("def unsafeSites")][0]
+print("yes" if all(int(n) <= allowed.get(f, 0) for f, n in re.findall(r'\("([^"]+)", (\d+)\)', line)) else "no")
+PY
+)
+  grep -v "^def unsafeSites" /var/tmp/hw/$name.base.lean > /var/tmp/hw/$name.base.cmp; grep -v "^def unsafeSites" /var/tmp/hw/$name.new.lean > /var/tmp/hw/$name.new.cmp
+  if [ $erc -ne 0 ] || [ "$inv_ok" != "yes" ] || ! cmp -s /var/tmp/hw/$name.base.cmp /var/tmp/hw/$name.new.cmp; then
     echo "HARMLESS-REWRITE-CHANGES-TABLES $name (extract rc=$erc): $out"; rc=1
   else
     echo "ok $name: tables identical"
   fi
   git -C /repo worktree remove --force $W
-  rm -f /var/tmp/hw/$name.base.lean /var/tmp/hw/$name.new.lean
+  rm -f /var/tmp/hw/$name.base.lean /var/tmp/hw/$name.new.lean /var/tmp/hw/$name.base.cmp /var/tmp/hw/$name.new.cmp
 done
 rmdir /var/tmp/hw 2>/dev/null
 exit $rc
